@@ -61,10 +61,28 @@ class StmtMixin(object):
         self.eval(node.value, env)
 
     def x_Import(self, node, env):
-        pass  # resolved lazily through the module's import table
+        self._bind_imports(node, env)
 
     def x_ImportFrom(self, node, env):
-        pass
+        self._bind_imports(node, env)
+
+    def _bind_imports(self, node, env):
+        """Function-level imports bind local names (so that closures defined afterwards see them)."""
+        mod = env.module
+        if mod is None:
+            return
+        saved = mod.imports
+        mod.imports = {}
+        try:
+            mod._index_import(node)
+            table = mod.imports
+        finally:
+            mod.imports = saved
+        for name, dotted in table.items():
+            try:
+                env.set(name, self.resolve_import(dotted))
+            except OutOfSubset:
+                pass
 
     def x_FunctionDef(self, node, env):
         f = self.frame
